@@ -122,7 +122,7 @@ theorem fillItems_names (cols : List Name) (v : Val) (sub : List Name) : (fillIt
           apply List.map_congr_left; intro c _; simp only [Function.comp]; split <;> rfl
     _ = cols := by simp
 
-theorem replaceItems_names (cols : List Name) (o n : Val) (sub : List Name) : (replaceItems cols o n sub).map (·.1) = cols := by
+theorem replaceItems_names (cols : List Name) (pairs : List (Val × Val)) (sub : List Name) : (replaceItems cols pairs sub).map (·.1) = cols := by
   simp only [replaceItems, List.map_map]
   calc _ = cols.map id := by
           apply List.map_congr_left; intro c _; simp only [Function.comp]; split <;> rfl
